@@ -442,15 +442,21 @@ def okB : Except StartErr (List Addr) → Bool
   | .ok _ => true
   | .error _ => false
 
-/-- what antnode does with the cache before it starts (ant-node/src/bin/antnode/main.rs):
-`BootstrapCacheStore::new_from_peers_args(&opt.peers, ..)?` (`get_bootstrap_cache_path()?`, and for `--first` a `write()?` of
-an empty cache) followed by `sync_and_flush_to_disk(true)?` ("to create the file before startup"; nothing when `--local`
-disabled cache writing). Both `?` end the process. `writeFails` = the cache file cannot be written. -/
-def nodeStart (dir : DirKind) (first «local» writeFails : Bool) : Except StartErr Unit :=
+/-- what antnode does with the cache before it starts (ant-node/src/bin/antnode/main.rs), in the order of the code:
+`BootstrapCacheConfig::default_config()?` (the DEFAULT cache directory under the user's data directory is looked up and
+created whether or not `--bootstrap-cache-dir` overrides it: `defaultDirFails`), then
+`BootstrapCacheStore::new_from_peers_args(&opt.peers, ..)?` = `get_bootstrap_cache_path()?` (`dir`), `Self::new`
+(`create_dir_all(parent)?` when the cache file's directory is not there — it has just been created, so only if it
+vanished in between: `parentFails`), for `--first` a `write()?` of an empty cache; followed by
+`sync_and_flush_to_disk(true)?` ("to create the file before startup"; nothing when `--local` disabled cache writing).
+Every `?` ends the process. `writeFails` = the cache file cannot be written. -/
+def nodeStart (defaultDirFails : Bool) (dir : DirKind) (parentFails first «local» writeFails : Bool) : Except StartErr Unit :=
+  if defaultDirFails then .error .cache else
   match dirErr dir with
   | some e => .error e
   | none =>
-    if first && writeFails then .error .cache
+    if parentFails then .error .cache
+    else if first && writeFails then .error .cache
     else if !«local» && writeFails then .error .cache
     else .ok ()
 
